@@ -1,5 +1,12 @@
 UNITS = {"c02node": dict(pkg="./pkg/controller/multi-ip/node", tags="default_build", shrinktime="40s")}
 
+# candidate findings reported to the lead; until they are entered into known_findings.json
+# (or repaired) their guards are switched on through this variable
+_PENDING = {"VERIF_PENDING_KNOWN": "C08-double-fault-orphan,C08-idle-eni-kept,C08-greedy-demand-oscillation,C08-eflo-partial-key-collision,C08-negative-slot-count,C08-sync-merge-nil-map,C08-sync-drops-detached-eni,C08-lost-write-no-resync,C08-rollback-record-lacks-mode,C08-rdma-idle-oscillation,C08-dual-stack-imbalance,C02-v4-not-on-v6-eni"}
+
+_W = ["DoubleFaultOrphan", "IdleENIKept", "GreedyDemand", "RDMAIdle", "DualStackImbalance", "LostWrite", "RollbackRecordLacksMode",
+      "SyncMergeNilMap", "SyncDropsDetachedENI", "EFLOPartialKeyCollision"]
+
 PROPS = {
     "C08": dict(
         level="fault_enumeration",
@@ -8,6 +15,7 @@ PROPS = {
         assumptions=[],
         level_text="todo",
         level_note="todo",
-        tests=[dict(unit="c02node", test="TestVerifC08Loop", quick=2400, thorough=60000, env={"VERIF_PENDING_KNOWN": "C08-double-fault-orphan,C08-idle-eni-kept,C08-greedy-demand-oscillation,C08-eflo-partial-key-collision,C08-negative-slot-count,C08-sync-drops-detached-eni,C08-sync-merge-nil-map,C08-lost-write-no-resync,C08-rollback-record-lacks-mode,C08-rdma-idle-oscillation,C08-dual-stack-imbalance,C02-v4-not-on-v6-eni"})],
+        tests=[dict(unit="c02node", test="TestVerifC08Loop", quick=2400, thorough=60000, env=_PENDING)] +
+              [dict(unit="c02node", test="TestVerifC08Known" + w, quick=1, thorough=1, shards=1, env=_PENDING) for w in _W],
     ),
 }
